@@ -283,6 +283,36 @@ func cmdOracle(prop string, seed uint64, n int, out string) {
 	writeJSON(out+".stats.json", stats)
 }
 
+// cmdOracleReplay: `harness oracle-replay -prop Cxx -case '<failure JSON>'`
+// re-runs the recorded input; exit 1 when the failure reproduces.
+func cmdOracleReplay(prop, failureJSON string) {
+	var f oracleFailure
+	if err := json.Unmarshal([]byte(failureJSON), &f); err != nil {
+		fmt.Fprintln(os.Stderr, "bad failure JSON:", err)
+		os.Exit(2)
+	}
+	supported := false
+	var again []oracleFailure
+	for _, o := range oracles[prop] {
+		if o.replay != nil {
+			supported = true
+			again = append(again, o.replay(f)...)
+		}
+	}
+	if !supported {
+		fmt.Println("no oracle of", prop, "supports replay; recorded failure:", failureJSON)
+		os.Exit(2)
+	}
+	for _, g := range again {
+		b, _ := json.Marshal(g)
+		fmt.Println("REPRODUCED", string(b))
+	}
+	if len(again) > 0 {
+		os.Exit(1)
+	}
+	fmt.Println("NOT REPRODUCED")
+}
+
 func coqString(s string) string { return "\"" + strings.ReplaceAll(s, "\"", "\"\"") + "\"" }
 
 func cmdCoqCases(in string, k int, out string) {
